@@ -78,7 +78,7 @@ var restorePayload = func() string {
 //
 //	biz:S:…  own keys (only S's clients write them)          biz:X:… shared keys (both sites; only
 //	tmp:S:…  keys the filter classes drop                     commands that cannot fail on the
-//	biz:S:d1:… keys written in DB 1                            other site's value)
+//	biz:S:dN:… keys written in DB N                            other site's value)
 //
 // A key's name fixes its type, so a replayed command never meets a value of another type.
 func genScript(r *rand.Rand, g *idGen, c loopCfg, n int) []opSpec {
@@ -101,15 +101,15 @@ func genScript(r *rand.Rand, g *idGen, c loopCfg, n int) []opSpec {
 	draw := func(db int) []cmdSpec {
 		id := g.next()
 		mk := func(args ...string) []cmdSpec { return []cmdSpec{{Args: args, ID: id, Kind: "plain"}} }
-		if db == 1 {
-			k := fmt.Sprintf("biz:%s:d1:s:%d", S, r.Intn(2))
+		if db != 0 {
+			k := fmt.Sprintf("biz:%s:d%d:s:%d", S, db, r.Intn(2))
 			switch r.Intn(3) {
 			case 0:
 				return mk("SET", k, val(id))
 			case 1:
 				return mk("SET", k, val(id), "PX", "900000")
 			default:
-				return mk("DEL", k, fmt.Sprintf("biz:%s:d1:nokey:%s", S, id))
+				return mk("DEL", k, fmt.Sprintf("biz:%s:d%d:nokey:%s", S, db, id))
 			}
 		}
 		switch r.Intn(30) {
@@ -265,8 +265,8 @@ func genScript(r *rand.Rand, g *idGen, c loopCfg, n int) []opSpec {
 	var ops []opSpec
 	db := 0
 	for len(ops) < n {
-		if r.Intn(12) == 0 {
-			db = 1 - db
+		if r.Intn(7) == 0 {
+			db = r.Intn(4) // databases 1..3 move the site's replication stream out of the links' database
 		}
 		switch x := r.Intn(13); {
 		case x == 10:
@@ -470,6 +470,7 @@ func snapshotOf(s *site) ([]byte, int64, []string) {
 	var skipped []string
 	s.srv.With(func(dbs []fakeredis.DB) {
 		off = s.prop.End()
+		s.prop.ReplicaAttached() // a replica attaching for a full sync: the master's slaveseldb becomes -1
 		for db, d := range dbs {
 			for name, o := range d {
 				k := rdbx.Key{DB: db, Key: []byte(name), ExpireAtMs: o.ExpireAt}
